@@ -167,11 +167,15 @@ def cases(ctx):
         vals = [v for v in (bound - 1, bound, bound + 1, 0, 2**64 - 1, r.getrandbits(64)) if 0 <= v < 2**64]
         outs = [{"value": r.choice(vals), "script": r.choice([p2pkh, p2pkh, b"\x6a", b"\x76\xa9\x14" + gen.rbytes(r, 20) + b"\x88\xac", wire.detok([("push", gen.rbytes(r, 33)), ("op", 0xAC)])])} for _ in range(no)]
         ins = [gen.gen_txin(r, script=wire.detok([("push", gen.rbytes(r, r.choice([5, 71]))), ("push", gen.rbytes(r, 33))]) if r.random() < 0.7 else b"\x51") for _ in range(ni)]
+        # unsigned inputs: EMPTY unlocking script; what the template sees is then the recorded locking script alone
+        for j_ in range(ni):
+            if r.random() < 0.3:
+                ins[j_]["script"] = b""
         tx = {"version": 1, "ins": ins, "outs": outs, "locktime": 0}
         ext = [({"satoshis": r.choice(vals)} if r.random() < 0.75 else None) for _ in range(ni)]
-        for e in ext:
-            if e is not None and r.random() < 0.4:
-                e["locking"] = r.choice([p2pkh, b"\x6a"]).hex()
+        for j_, e in enumerate(ext):
+            if e is not None and (r.random() < 0.4 or not ins[j_]["script"]):
+                e["locking"] = r.choice([p2pkh, p2pkh, b"\x6a"]).hex()
         for mask in range(16):
             c = {"k": "criteria", "tx": wire.tx_encode(tx).hex(), "ext": ext}
             if mask & 1:
@@ -277,6 +281,8 @@ def judge(ctx, case):
             sc = inp["script"] + (bytes.fromhex(e["locking"]) if e and "locking" in e else b"")
             v = e["satoshis"] if e and "satoshis" in e else None
             script_ok = tm is None or template.match(wire.tokenize(sc), tm) is not None
+            if not inp["script"] and e and "locking" in e and tm is not None:
+                ctx.hit("unsigned_input_with_recorded_locking_script")
             if v is None:
                 if ex is not None or mn is not None:
                     ctx.hit("input_without_value_under_exact_or_min")
